@@ -201,7 +201,7 @@ RULE = ('Histories = start state (empty / dict / pair list / parsed from str, by
         'with dump->parse raised, 10 start kinds incl. iter_paragraphs(bytes), bytes line list, lazy wrapper over a '
         'bytes-parsed paragraph, 10 dump->parse routes incl. binary / text file objects handed to the parser, all sort keys, all copy routes, update from dict / pairs / '
         'Deb822Dict), all sequences of length <= 2 (quick) / <= 3 (thorough) over the 18-operation alphabet with a/b/c '
-        'replaced by 4 name maps (blank A, dotted, blank B, mixed) from 3 (quick) / 8 (thorough) start states, every sort '
+        'replaced by 3 (quick) / 4 name maps (blank A, dotted, blank B; mixed) from 3 (quick) / 8 (thorough) start states, every sort '
         'key x 2 / 12 fixed start orders x 4 start kinds (quick: half of the combinations per seed parity), the bulk-removal enumeration over 2 (quick: half of the '
         'start x removal pairs per seed parity) / 6 more name sets, and seeded "bulk-special" histories.  Counters '
         '<blank|blankb|dotted>:variant:<operation> (a PRESENT field of the class addressed through a spelling different '
@@ -341,7 +341,7 @@ MUST_REACH = ['debian.deb822:Deb822Dict.__setitem__', 'debian.deb822:Deb822Dict.
               'debian._util:LinkedList.remove_node', 'debian._util:_CaseInsensitiveString.__eq__']
 
 # total numbers of RANDOM histories per tier (the enumerated part comes on top)
-RANDOM_HISTORIES = {'quick': 4600, 'thorough': 285000}
+RANDOM_HISTORIES = {'quick': 4400, 'thorough': 285000}
 MAX_OPS = {'quick': 30, 'thorough': 40}
 # the two added flavours ('sortkeys', 'copies'): shorter histories, counts per tier
 FLAVOUR_HISTORIES = {'sortkeys': {'quick': 1100, 'thorough': 58000}, 'copies': {'quick': 1100, 'thorough': 58000}}
@@ -495,7 +495,7 @@ BULK_MONITOR_FLOOR = {
 # depend on the seed) reach every one of them.  Counters measured below 8 in some quick run have no floor.
 SPECIAL_FLOORS = {
     'quick': {
-        'monitors': {'M.blank': 8000, 'M.blankb': 1800, 'M.dotted': 4300},
+        'monitors': {'M.blank': 6900, 'M.blankb': 1800, 'M.dotted': 3800},
         'counters': {'blank:clear': 71, 'blank:copy:Deb822': 35, 'blank:copy:Deb822Dict': 39, 'blank:copy:copy': 40,
                      'blank:copy:ctor': 53, 'blank:copy:ctor-dict': 34, 'blank:copy:ctor-dict-items': 33,
                      'blank:copy:ctor-item-list': 32, 'blank:copy:ctor-items': 35, 'blank:copy:dict': 21,
@@ -511,24 +511,24 @@ SPECIAL_FLOORS = {
                      'blank:cycled:U+2005': 1, 'blank:cycled:U+2006': 4, 'blank:cycled:U+2007': 36,
                      'blank:cycled:U+2008': 1, 'blank:cycled:U+2009': 5, 'blank:cycled:U+200A': 4,
                      'blank:cycled:U+2028': 1, 'blank:cycled:U+2029': 1, 'blank:cycled:U+202F': 1,
-                     'blank:cycled:U+205F': 2, 'blank:cycled:U+3000': 26, 'blank:fail:self-relative-variant': 210,
-                     'blank:failed-op': 1000, 'blank:parsed:U+001C': 180, 'blank:parsed:U+001D': 1,
+                     'blank:cycled:U+205F': 2, 'blank:cycled:U+3000': 26, 'blank:fail:self-relative-variant': 170,
+                     'blank:failed-op': 850, 'blank:parsed:U+001C': 180, 'blank:parsed:U+001D': 1,
                      'blank:parsed:U+001E': 1, 'blank:parsed:U+001F': 220, 'blank:parsed:U+0085': 180,
-                     'blank:parsed:U+00A0': 240, 'blank:parsed:U+1680': 180, 'blank:parsed:U+2000': 5,
+                     'blank:parsed:U+00A0': 240, 'blank:parsed:U+1680': 6, 'blank:parsed:U+2000': 5,
                      'blank:parsed:U+2001': 7, 'blank:parsed:U+2002': 6, 'blank:parsed:U+2003': 45,
                      'blank:parsed:U+2004': 3, 'blank:parsed:U+2005': 5, 'blank:parsed:U+2006': 5,
                      'blank:parsed:U+2007': 30, 'blank:parsed:U+2008': 2, 'blank:parsed:U+2009': 11,
                      'blank:parsed:U+200A': 11, 'blank:parsed:U+2028': 180, 'blank:parsed:U+2029': 1,
-                     'blank:parsed:U+202F': 5, 'blank:parsed:U+205F': 6, 'blank:parsed:U+3000': 190, 'blank:popitem':
-                     89, 'blank:reinit': 5, 'blank:sort:caller-key': 62, 'blank:sort:default': 210,
-                     'blank:sort:moved': 290, 'blank:sort:stored-key': 94, 'blank:start:dict': 570,
+                     'blank:parsed:U+202F': 5, 'blank:parsed:U+205F': 6, 'blank:parsed:U+3000': 14, 'blank:popitem':
+                     89, 'blank:reinit': 5, 'blank:sort:caller-key': 62, 'blank:sort:default': 180,
+                     'blank:sort:moved': 250, 'blank:sort:stored-key': 94, 'blank:start:dict': 400,
                      'blank:start:iter': 14, 'blank:start:iter-bytes': 12, 'blank:start:lazy': 42,
                      'blank:start:lazy-bytes': 190, 'blank:start:pairs': 18, 'blank:start:parsed-bytes': 56,
-                     'blank:start:parsed-lines': 190, 'blank:start:parsed-lines-bytes': 7, 'blank:start:parsed-str':
-                     210, 'blank:variant:after-item': 270, 'blank:variant:after-ref': 290,
-                     'blank:variant:before-item': 320, 'blank:variant:before-ref': 330, 'blank:variant:del': 260,
-                     'blank:variant:first': 190, 'blank:variant:get': 43, 'blank:variant:in': 36,
-                     'blank:variant:last': 230, 'blank:variant:pop': 51, 'blank:variant:set': 340,
+                     'blank:start:parsed-lines': 23, 'blank:start:parsed-lines-bytes': 7, 'blank:start:parsed-str':
+                     210, 'blank:variant:after-item': 240, 'blank:variant:after-ref': 240,
+                     'blank:variant:before-item': 280, 'blank:variant:before-ref': 270, 'blank:variant:del': 240,
+                     'blank:variant:first': 170, 'blank:variant:get': 43, 'blank:variant:in': 36,
+                     'blank:variant:last': 210, 'blank:variant:pop': 51, 'blank:variant:set': 300,
                      'blank:variant:setdefault': 24, 'blank:variant:update': 93, 'blankb:copy:Deb822': 1,
                      'blankb:copy:Deb822Dict': 1, 'blankb:copy:ctor': 1, 'blankb:copy:ctor-dict-items': 1,
                      'blankb:copy:ctor-item-list': 1, 'blankb:copy:ctor-items': 1, 'blankb:copy:dict': 1,
@@ -553,21 +553,21 @@ SPECIAL_FLOORS = {
                      'dotted:cycle:file-text': 1, 'dotted:cycle:iter': 1, 'dotted:cycle:iter-bytes': 1,
                      'dotted:cycle:lines': 5, 'dotted:cycle:lines-bytes': 1, 'dotted:cycle:str': 3,
                      'dotted:fail:self-relative-lenvariant': 73, 'dotted:fail:self-relative-variant': 90,
-                     'dotted:failed-op': 450, 'dotted:lenvariant:after-item': 85, 'dotted:lenvariant:after-ref': 87,
+                     'dotted:failed-op': 420, 'dotted:lenvariant:after-item': 85, 'dotted:lenvariant:after-ref': 87,
                      'dotted:lenvariant:before-item': 110, 'dotted:lenvariant:before-ref': 110,
                      'dotted:lenvariant:del': 94, 'dotted:lenvariant:first': 58, 'dotted:lenvariant:get': 10,
                      'dotted:lenvariant:in': 2, 'dotted:lenvariant:last': 93, 'dotted:lenvariant:pop': 11,
                      'dotted:lenvariant:set': 120, 'dotted:lenvariant:setdefault': 1, 'dotted:lenvariant:update': 43,
                      'dotted:popitem': 78, 'dotted:reinit': 1, 'dotted:sort:caller-key': 29, 'dotted:sort:default':
-                     130, 'dotted:sort:moved': 170, 'dotted:sort:stored-key': 51, 'dotted:start:dict': 370,
+                     110, 'dotted:sort:moved': 160, 'dotted:sort:stored-key': 51, 'dotted:start:dict': 200,
                      'dotted:start:iter': 3, 'dotted:start:iter-bytes': 1, 'dotted:start:lazy': 30,
                      'dotted:start:lazy-bytes': 1, 'dotted:start:pairs': 5, 'dotted:start:parsed-bytes': 190,
                      'dotted:start:parsed-lines': 11, 'dotted:start:parsed-lines-bytes': 1, 'dotted:start:parsed-str':
-                     22, 'dotted:variant:after-item': 120, 'dotted:variant:after-ref': 110,
-                     'dotted:variant:before-item': 140, 'dotted:variant:before-ref': 150, 'dotted:variant:del': 130,
+                     22, 'dotted:variant:after-item': 100, 'dotted:variant:after-ref': 110,
+                     'dotted:variant:before-item': 140, 'dotted:variant:before-ref': 130, 'dotted:variant:del': 110,
                      'dotted:variant:first': 83, 'dotted:variant:get': 26, 'dotted:variant:in': 8,
-                     'dotted:variant:last': 120, 'dotted:variant:pop': 22, 'dotted:variant:set': 180,
-                     'dotted:variant:setdefault': 2, 'dotted:variant:update': 63, 'special:nontrivial': 1300}},
+                     'dotted:variant:last': 110, 'dotted:variant:pop': 22, 'dotted:variant:set': 160,
+                     'dotted:variant:setdefault': 2, 'dotted:variant:update': 63, 'special:nontrivial': 1100}},
     'thorough': {
         'monitors': {'M.blank': 590000, 'M.blankb': 160000, 'M.dotted': 310000},
         'counters': {'blank:clear': 2600, 'blank:copy:Deb822': 2700, 'blank:copy:Deb822Dict': 2800, 'blank:copy:copy':
@@ -1448,6 +1448,8 @@ def special_enum_cases(ctx):
     start states per map."""
     idx = 0
     for mi, (mname, mp) in enumerate(SPECIAL_ENUM_MAPS):
+        if ctx.quick and mname == 'mixed':
+            continue                            # thorough only
         starts = []
         for si, st in enumerate(SPECIAL_ENUM_STARTS):
             if ctx.quick and si not in (0, 3, 4 + mi):
@@ -1916,7 +1918,8 @@ def cases(ctx):
         'names with blank-like characters / case variants of different length: all operation sequences of length '
         '1..%d over ENUM_OPS with a/b/c replaced by %d name maps (%s) from %d start states each; every one of the %d '
         'sort keys x %d fixed start orders x %d start kinds; the bulk-removal enumeration over %d more name sets%s'
-        % (SPECIAL_ENUM_LEN[ctx.tier], len(SPECIAL_ENUM_MAPS), ', '.join(n for n, _ in SPECIAL_ENUM_MAPS),
+        % (SPECIAL_ENUM_LEN[ctx.tier], len(SPECIAL_ENUM_MAPS) - (1 if ctx.quick else 0),
+           ', '.join(n for n, _ in SPECIAL_ENUM_MAPS if not (ctx.quick and n == 'mixed')),
            3 if ctx.quick else len(SPECIAL_ENUM_STARTS), len(SORT_KEYS), SPECIAL_SORT_ORDERS[ctx.tier], len(SORT_ENUM_STARTS),
            SPECIAL_BULK_ENUM_ROUNDS[ctx.tier],
            ' (quick: of the sort and bulk-removal combinations the half that belongs to the parity of VERIF_SEED)' if ctx.quick else '')]
